@@ -23,12 +23,15 @@ Three things the generic harness of bounded/stl.py does not do are done by `BitH
 
 Operand domains are seeded with zlib.crc32 (not `hash`, which is salted per process): `pin_domains`.
 
-Readings of the documentation that are not literal (all reported as candidate documentation findings):
-  * bit.neg: the comment says `x[:n]--` (the line of bit.dec copied); contract `x[:n] = -x[:n]` (name, hex.neg's doc).
+Readings of the documentation that are not literal (reported as documentation remarks):
   * bit.inc1 / bit.add1 / bit.inc.inc1_with_carry0_jump: `{carry:dst}++`, `{carry:dst} += src`, with the file header
     "carry is both input and output" - read as {carry:dst} = dst + carry (+ src): the carry is an ADDEND and the carry-out.
-  * bit.div10.cmp_sub_10: the comment says `if (val > 10)`; contract `val >= 10` (what bit.div10's own formula needs).
   * bit.div.div_step: "R,D are bit[:n], while R,N are bits" - read as "Q,N are bits".
+
+Found by this table on the unchanged tree, since fixed in /repo (the contracts are the documented ones, before and after):
+  * bit.idiv / bit.idiv_loop with b == 0 and a < 0 negated q and r ("if b==0: goto end (do nothing)")  - ea34c96
+  * bit.mul10 1, x cleared the cell after x (`.shl 1, 2, x` against shl's own times <= n)               - d8e5be1
+  * comments: bit.neg said `x[:n]--` (F10), bit.div10.cmp_sub_10 said `val > 10`                         - 5af2ecd
 """
 from __future__ import annotations
 
@@ -413,14 +416,11 @@ def contracts(tier: str, seed: int = 0) -> List[MacroContract]:
         # arithmetic, linear cost
         add('bit.inc[n]', f'bit.inc {n}, x', {'x': X(n)}, lambda v: {'x': v['x'] + 1}, 'x[:n]++', n)
         add('bit.dec[n]', f'bit.dec {n}, x', {'x': X(n)}, lambda v: {'x': v['x'] - 1}, 'x[:n]--', n)
-        add('bit.neg[n]', f'bit.neg {n}, x', {'x': X(n)}, lambda v: {'x': -v['x']}, 'x[:n] = -x[:n]   [the comment of bit.neg says "x[:n]--", copied from bit.dec: F10; contract from the name and from hex.neg]', n)
+        add('bit.neg[n]', f'bit.neg {n}, x', {'x': X(n)}, lambda v: {'x': -v['x']}, 'x[:n] = -x[:n]', n)
         add('bit.add[n]', f'bit.add {n}, x, y', {'x': X(n), 'y': I(n)}, lambda v: {'x': v['x'] + v['y']}, 'dst[:n] += src[:n]', n)
         add('bit.sub[n]', f'bit.sub {n}, x, y', {'x': X(n), 'y': I(n)}, lambda v: {'x': v['x'] - v['y']}, 'dst[:n] -= src[:n]', n)
-        if n >= 2:
-            add('bit.mul10[n]', f'bit.mul10 {n}, x', {'x': X(n)}, lambda v: {'x': v['x'] * 10}, 'x[:n] *= 10', n, est=200 * n)
-        else:  # candidate finding (the documentation states no lower bound for n): kept apart, out of the composition pools
-            c = add('bit.mul10[n=1]', 'bit.mul10 1, x', {'x': X(1), 'y': I(1)}, lambda v: {'x': v['x'] * 10}, 'x[:n] *= 10   (y: the variable placed right after x)', n, est=200)
-            c.domain = _fixed(c, seed)
+        # n = 1: with the variable placed right after x in view (the unchanged tree cleared it: `.shl 1, 2, x`; fixed in /repo d8e5be1)
+        add('bit.mul10[n]', f'bit.mul10 {n}, x', {'x': X(n), 'y': I(1)} if n == 1 else {'x': X(n)}, lambda v: {'x': v['x'] * 10}, 'x[:n] *= 10', n, est=250 * n)
         add('bit.div10[n]', f'bit.div10 {n}, q, x', {'q': O(n), 'x': X(n)}, lambda v: {'q': v['x'] // 10, 'x': v['x'] % 10}, 'dst[:n], src[:n] = src[:n] / 10, src[:n] % 10.', n)
         add('bit.mul.mul_add_if', f'bit.mul.mul_add_if {n}, f, x, y', {'f': I(1), 'x': X(n), 'y': I(n)}, lambda v: {'x': v['x'] + v['y'] * v['f']}, 'if flag: dst[:n] += src[:n]', n)
 
@@ -437,7 +437,7 @@ def contracts(tier: str, seed: int = 0) -> List[MacroContract]:
             return {'c': val >> 4, 'x': val & 15, 'f': v['f'] ^ 1}
         return {}
 
-    add('bit.div10.cmp_sub_10', 'bit.div10.cmp_sub_10 c, x, f', {'c': X(1), 'x': X(4), 'f': X(1)}, cmp_sub_10, 'if (val > 10) { val -= 10; res = !res; }  for val4:val[3,2,1,0], Assumes val <= 19   ["> 10" read as ">= 10": bit.div10 needs 10/10 = 1]', 4, requires=lambda v: v['c'] * 16 + v['x'] <= 19)
+    add('bit.div10.cmp_sub_10', 'bit.div10.cmp_sub_10 c, x, f', {'c': X(1), 'x': X(4), 'f': X(1)}, cmp_sub_10, 'if (val >= 10) { val -= 10; res = !res; }  for val4:val[3,2,1,0], Assumes val <= 19', 4, requires=lambda v: v['c'] * 16 + v['x'] <= 19)
 
     # ------------------------------------------------------------------ arithmetic, quadratic cost
     for n in ns_quad:
@@ -450,6 +450,8 @@ def contracts(tier: str, seed: int = 0) -> List[MacroContract]:
             return {'q': v['x'] // v['y'], 'r': v['x'] % v['y']} if v['y'] else {}
 
         def sdiv(v: Vals, n: int = n) -> Vals:
+            if not v['y']:
+                return {}  # (the unchanged tree negated q and r here when a < 0; fixed in /repo ea34c96)
             q, r = _tdiv(_sx(v['x'], n), _sx(v['y'], n))
             return {'q': q, 'r': r}
 
@@ -458,13 +460,8 @@ def contracts(tier: str, seed: int = 0) -> List[MacroContract]:
         sdoc = 'if b==0: goto end (do nothing) ; q = a/b (signed division) ; r = a%b (signed modulo - sign(r)==sign(a))'
         add('bit.div[n]', f'bit.div {n}, x, y, q, r', dict(dv), udiv, udoc, n, est=q_est)
         add('bit.div_loop[n]', f'bit.div_loop {n}, x, y, q, r', dict(dv), udiv, udoc, n, est=q_est)
-        for nm in ('idiv', 'idiv_loop'):
-            # b != 0 and b == 0 are two contracts: the second is a candidate finding (q, r are NOT left alone when a < 0), and one
-            # contract stops at its first failing tuple
-            add(f'bit.{nm}[n]', f'bit.{nm} {n}, x, y, q, r', dict(dv), sdiv, sdoc + '   [b != 0 here; b == 0: contract /b==0]', n, est=q_est, requires=lambda v: v['y'] != 0)
-            c = add(f'bit.{nm}[n]/b==0', f'bit.{nm} {n}, x, y, q, r', dict(dv), lambda v: {}, 'if b==0: goto end (do nothing)', n, est=q_est)
-            c.domain = _fixed(c, seed, 96)
-            c.domain = (lambda inner: (lambda rng: [dict(t, y=0) for t in inner(rng)]))(c.domain)
+        add('bit.idiv[n]', f'bit.idiv {n}, x, y, q, r', dict(dv), sdiv, sdoc, n, est=q_est)
+        add('bit.idiv_loop[n]', f'bit.idiv_loop {n}, x, y, q, r', dict(dv), sdiv, sdoc, n, est=q_est)
 
     # ------------------------------------------------------------------ thorough: every operand pair at n = 8 (one width each)
     if thorough:
